@@ -1009,3 +1009,197 @@ Proof.
   unfold isMapN, has, nd. destruct (nodes s !! n) as [x|]; [|discriminate].
   simpl. intros H. split; [eauto|]. destruct (nkind x); try discriminate. eauto.
 Qed.
+
+(** * zeroNode / removeNode, field by field (no side conditions: a dummy is already zero) *)
+Lemma upd_const_proj {A} (g : node -> A) s n f m (a : A) :
+  (forall x, g (f x) = a) -> g dummy = a ->
+  g (nd (upd s n f) m) = if decide (m = n) then a else g (nd s m).
+Proof.
+  intros Hf Hd. destruct (decide (has s n)) as [Hn|Hn].
+  - rewrite nd_upd by exact Hn. destruct (decide (m = n)); [apply Hf|reflexivity].
+  - rewrite upd_missing by exact Hn. destruct (decide (m = n)) as [->|]; [|reflexivity].
+    rewrite not_has_nd by exact Hn. exact Hd.
+Qed.
+
+Section zeroNode.
+  Context (s : state) (n : nid) (s' : state) (H : zeroNode s n = Ok s').
+
+  Local Lemma zn_form : exists s1, (if inHeap s n then heapRemove s n else Ok s) = Ok s1 /\ only_heap s s1 /\
+    s' = upd (s1 <| numNodes := numNodes s1 - 1 |>
+                 <| handlers := rm n (handlers s1) |>
+                 <| setRemoved := if bool_decide (n ∈ setDuring s1) then setRemoved s1 ++ [n] else setRemoved s1 |>
+                 <| setDuring := rm n (setDuring s1) |>) n zero_fields.
+  Proof.
+    destruct (zeroNode_inv s n s' H) as (s1 & E & ->). exists s1. split; [exact E|]. split; [|reflexivity].
+    destruct (inHeap s n).
+    - apply heapRemove_inv in E as (w & _ & ->). apply only_heap_set.
+    - injection E as <-. apply only_heap_refl.
+  Qed.
+
+  Local Ltac zn := destruct zn_form as (s1 & _ & F & ->); cbn; rewrite ?(oh_nd s s1 F); try (rewrite F; reflexivity).
+
+  Lemma next_zeroNode : next s' = next s. Proof. zn. Qed.
+  Lemma binds_zeroNode : binds s' = binds s. Proof. zn. Qed.
+  Lemma reg_zeroNode : reg s' = reg s. Proof. zn. Qed.
+  Lemma obs_zeroNode : obs s' = obs s. Proof. zn. Qed.
+  Lemma adj_zeroNode : adj s' = adj s. Proof. zn. Qed.
+  Lemma invq_zeroNode : invq s' = invq s. Proof. zn. Qed.
+  Lemma stabNum_zeroNode : stabNum s' = stabNum s. Proof. zn. Qed.
+  Lemma status_zeroNode : status s' = status s. Proof. zn. Qed.
+  Lemma maxHeight_zeroNode : maxHeight s' = maxHeight s. Proof. zn. Qed.
+  Lemma log_zeroNode : log s' = log s. Proof. zn. Qed.
+  Lemma numNodes_zeroNode : numNodes s' = numNodes s - 1. Proof. zn. Qed.
+  Lemma handlers_zeroNode : handlers s' = rm n (handlers s). Proof. zn. Qed.
+  Lemma setDuring_zeroNode : setDuring s' = rm n (setDuring s). Proof. zn. Qed.
+  Lemma setRemoved_zeroNode :
+    setRemoved s' = if bool_decide (n ∈ setDuring s) then setRemoved s ++ [n] else setRemoved s.
+  Proof. zn. Qed.
+  Lemma heap_zeroNode :
+    if inHeap s n then exists s1, heapRemove s n = Ok s1 /\ heap s' = heap s1 else heap s' = heap s.
+  Proof.
+    destruct zn_form as (s1 & E & F & ->). cbn. destruct (inHeap s n); [eauto|]. injection E as <-. reflexivity.
+  Qed.
+  Lemma has_zeroNode m : has s' m <-> has s m.
+  Proof. destruct zn_form as (s1 & _ & F & ->). rewrite has_upd. apply (oh_has s s1 F). Qed.
+
+  Local Ltac znp := intros; destruct zn_form as (s1 & _ & F & ->);
+                    rewrite nd_upd_proj by reflexivity; rewrite <- (oh_nd s s1 F); reflexivity.
+  Lemma nkind_nd_zeroNode m : nkind (nd s' m) = nkind (nd s m). Proof. znp. Qed.
+  Lemma decl_nd_zeroNode m : decl (nd s' m) = decl (nd s m). Proof. znp. Qed.
+  Lemma scope_nd_zeroNode m : scope (nd s' m) = scope (nd s m). Proof. znp. Qed.
+  Lemma forceNec_nd_zeroNode m : forceNec (nd s' m) = forceNec (nd s m). Proof. znp. Qed.
+  Lemma inGraph_nd_zeroNode m : inGraph (nd s' m) = inGraph (nd s m). Proof. znp. Qed.
+  Lemma value_nd_zeroNode m : value (nd s' m) = value (nd s m). Proof. znp. Qed.
+  Lemma pending_nd_zeroNode m : pending (nd s' m) = pending (nd s m). Proof. znp. Qed.
+
+  Local Ltac znc g a := intros; destruct zn_form as (s1 & _ & F & ->);
+                    rewrite (upd_const_proj g _ _ _ _ a) by reflexivity; rewrite <- (oh_nd s s1 F); reflexivity.
+  Lemma parents_nd_zeroNode m : parents (nd s' m) = if decide (m = n) then [] else parents (nd s m).
+  Proof. znc parents ([] : list nat). Qed.
+  Lemma children_nd_zeroNode m : children (nd s' m) = if decide (m = n) then [] else children (nd s m).
+  Proof. znc children ([] : list nat). Qed.
+  Lemma observers_nd_zeroNode m : observers (nd s' m) = if decide (m = n) then [] else observers (nd s m).
+  Proof. znc observers ([] : list nat). Qed.
+  Lemma height_nd_zeroNode m : height (nd s' m) = if decide (m = n) then unset else height (nd s m).
+  Proof. znc height (unset : Z). Qed.
+  Lemma hAdj_nd_zeroNode m : hAdj (nd s' m) = if decide (m = n) then unset else hAdj (nd s m).
+  Proof. znc hAdj (unset : Z). Qed.
+  Lemma valid_nd_zeroNode m : valid (nd s' m) = if decide (m = n) then true else valid (nd s m).
+  Proof. znc valid (true : bool). Qed.
+  Lemma setAt_nd_zeroNode m : setAt (nd s' m) = if decide (m = n) then 0 else setAt (nd s m).
+  Proof. znc setAt (0 : Z). Qed.
+  Lemma changedAt_nd_zeroNode m : changedAt (nd s' m) = if decide (m = n) then 0 else changedAt (nd s m).
+  Proof. znc changedAt (0 : Z). Qed.
+  Lemma recomputedAt_nd_zeroNode m : recomputedAt (nd s' m) = if decide (m = n) then 0 else recomputedAt (nd s m).
+  Proof. znc recomputedAt (0 : Z). Qed.
+  Lemma bd_zeroNode b : bd s' b = bd s b.
+  Proof. unfold bd. rewrite binds_zeroNode. reflexivity. Qed.
+End zeroNode.
+
+Section removeNode.
+  Context (s : state) (n : nid) (s' : state) (H : removeNode s n = Ok s').
+  Let s0 := if inGraph (nd s n)
+            then (upd s n (set inGraph (fun _ => false))) <| reg := rm n (reg s) |> else s.
+  Local Lemma rn_zero : zeroNode s0 n = Ok s'.
+  Proof. exact H. Qed.
+
+  Local Ltac rn0 := unfold s0; destruct (inGraph (nd s n)); reflexivity.
+  Local Ltac rn lem := rewrite (lem s0 n s' rn_zero); rn0.
+
+  Lemma next_removeNode : next s' = next s. Proof. rn next_zeroNode. Qed.
+  Lemma binds_removeNode : binds s' = binds s. Proof. rn binds_zeroNode. Qed.
+  Lemma obs_removeNode : obs s' = obs s. Proof. rn obs_zeroNode. Qed.
+  Lemma adj_removeNode : adj s' = adj s. Proof. rn adj_zeroNode. Qed.
+  Lemma invq_removeNode : invq s' = invq s. Proof. rn invq_zeroNode. Qed.
+  Lemma stabNum_removeNode : stabNum s' = stabNum s. Proof. rn stabNum_zeroNode. Qed.
+  Lemma status_removeNode : status s' = status s. Proof. rn status_zeroNode. Qed.
+  Lemma maxHeight_removeNode : maxHeight s' = maxHeight s. Proof. rn maxHeight_zeroNode. Qed.
+  Lemma log_removeNode : log s' = log s. Proof. rn log_zeroNode. Qed.
+  Lemma numNodes_removeNode : numNodes s' = numNodes s - 1. Proof. rn numNodes_zeroNode. Qed.
+  Lemma handlers_removeNode : handlers s' = rm n (handlers s). Proof. rn handlers_zeroNode. Qed.
+  Lemma setDuring_removeNode : setDuring s' = rm n (setDuring s). Proof. rn setDuring_zeroNode. Qed.
+  Lemma setRemoved_removeNode :
+    setRemoved s' = if bool_decide (n ∈ setDuring s) then setRemoved s ++ [n] else setRemoved s.
+  Proof. rn setRemoved_zeroNode. Qed.
+  Lemma reg_removeNode : reg s' = if inGraph (nd s n) then rm n (reg s) else reg s.
+  Proof. rn reg_zeroNode. Qed.
+  Lemma heap_removeNode :
+    if inHeap s n then exists s1, heapRemove s n = Ok s1 /\ heap s' = heap s1 else heap s' = heap s.
+  Proof.
+    pose proof (heap_zeroNode s0 n s' rn_zero) as Hz.
+    assert (E : inHeap s0 n = inHeap s n) by rn0. rewrite E in Hz.
+    destruct (inHeap s n); [|rewrite Hz; rn0].
+    destruct Hz as (s1 & Hr & Hw). apply heapRemove_inv in Hr as (w & Hr & ->).
+    assert (Hr' : Heap.remove (heap s) n = Ok w) by (rewrite <- Hr; rn0).
+    exists (s <| heap := w |>). split; [unfold heapRemove; rewrite Hr'; reflexivity|exact Hw].
+  Qed.
+  Lemma has_removeNode m : has s' m <-> has s m.
+  Proof.
+    rewrite (has_zeroNode s0 n s' rn_zero). unfold s0. destruct (inGraph (nd s n)); [|reflexivity].
+    apply (has_upd s n).
+  Qed.
+
+  Local Ltac rnp lem := intros; rewrite (lem s0 n s' rn_zero); unfold s0; destruct (inGraph (nd s n));
+                        [|reflexivity];
+                        match goal with |- context [nd (?a <| reg := ?r |>) ?m] => change (nd (a <| reg := r |>) m) with (nd a m) end;
+                        rewrite nd_upd_proj by reflexivity; reflexivity.
+  Lemma nkind_nd_removeNode m : nkind (nd s' m) = nkind (nd s m). Proof. rnp nkind_nd_zeroNode. Qed.
+  Lemma decl_nd_removeNode m : decl (nd s' m) = decl (nd s m). Proof. rnp decl_nd_zeroNode. Qed.
+  Lemma scope_nd_removeNode m : scope (nd s' m) = scope (nd s m). Proof. rnp scope_nd_zeroNode. Qed.
+  Lemma forceNec_nd_removeNode m : forceNec (nd s' m) = forceNec (nd s m). Proof. rnp forceNec_nd_zeroNode. Qed.
+  Lemma value_nd_removeNode m : value (nd s' m) = value (nd s m). Proof. rnp value_nd_zeroNode. Qed.
+  Lemma pending_nd_removeNode m : pending (nd s' m) = pending (nd s m). Proof. rnp pending_nd_zeroNode. Qed.
+  Lemma parents_nd_removeNode m : parents (nd s' m) = if decide (m = n) then [] else parents (nd s m).
+  Proof. rnp parents_nd_zeroNode. Qed.
+  Lemma children_nd_removeNode m : children (nd s' m) = if decide (m = n) then [] else children (nd s m).
+  Proof. rnp children_nd_zeroNode. Qed.
+  Lemma observers_nd_removeNode m : observers (nd s' m) = if decide (m = n) then [] else observers (nd s m).
+  Proof. rnp observers_nd_zeroNode. Qed.
+  Lemma height_nd_removeNode m : height (nd s' m) = if decide (m = n) then unset else height (nd s m).
+  Proof. rnp height_nd_zeroNode. Qed.
+  Lemma hAdj_nd_removeNode m : hAdj (nd s' m) = if decide (m = n) then unset else hAdj (nd s m).
+  Proof. rnp hAdj_nd_zeroNode. Qed.
+  Lemma valid_nd_removeNode m : valid (nd s' m) = if decide (m = n) then true else valid (nd s m).
+  Proof. rnp valid_nd_zeroNode. Qed.
+  Lemma setAt_nd_removeNode m : setAt (nd s' m) = if decide (m = n) then 0 else setAt (nd s m).
+  Proof. rnp setAt_nd_zeroNode. Qed.
+  Lemma changedAt_nd_removeNode m : changedAt (nd s' m) = if decide (m = n) then 0 else changedAt (nd s m).
+  Proof. rnp changedAt_nd_zeroNode. Qed.
+  Lemma recomputedAt_nd_removeNode m : recomputedAt (nd s' m) = if decide (m = n) then 0 else recomputedAt (nd s m).
+  Proof. rnp recomputedAt_nd_zeroNode. Qed.
+  Lemma inGraph_nd_removeNode m : inGraph (nd s' m) = if decide (m = n) then false else inGraph (nd s m).
+  Proof.
+    rewrite (inGraph_nd_zeroNode s0 n s' rn_zero). unfold s0. destruct (inGraph (nd s n)) eqn:E.
+    - change (nd (upd s n (set inGraph (fun _ => false)) <| reg := rm n (reg s) |>) m)
+        with (nd (upd s n (set inGraph (fun _ => false))) m).
+      apply upd_const_proj; reflexivity.
+    - destruct (decide (m = n)) as [->|]; [exact E|reflexivity].
+  Qed.
+  Lemma bd_removeNode b : bd s' b = bd s b.
+  Proof. unfold bd. rewrite binds_removeNode. reflexivity. Qed.
+End removeNode.
+
+(** whole-record frame facts *)
+Lemma nd_addNode_ne s n m : m <> n -> nd (addNode s n) m = nd s m.
+Proof.
+  intros H. unfold addNode. destruct (inGraph (nd s n)); [reflexivity|].
+  change (nd (upd s n (set inGraph (fun _ => true))) m = nd s m). apply nd_upd_ne, H.
+Qed.
+
+Lemma nd_link_ne s c p m : m <> c -> m <> p -> nd (link s c p) m = nd s m.
+Proof. intros H1 H2. unfold link. rewrite !nd_upd_ne by assumption. reflexivity. Qed.
+
+Lemma nd_unlink_ne s c p m : m <> c -> m <> p -> nd (unlink s c p) m = nd s m.
+Proof. intros H1 H2. unfold unlink. rewrite !nd_upd_ne by assumption. reflexivity. Qed.
+
+Lemma inGraph_nd_addNode_mono s n m : inGraph (nd s m) = true -> inGraph (nd (addNode s n) m) = true.
+Proof.
+  intros H. destruct (decide (m = n)) as [->|Hne]; [|rewrite nd_addNode_ne by exact Hne; exact H].
+  unfold addNode. rewrite H. exact H.
+Qed.
+
+Lemma nd_setHeight_ne s n h s' m : setHeight s n h = Ok (s', None) -> m <> n -> nd s' m = nd s m.
+Proof.
+  intros H Hne. apply setHeight_inv in H as [(_ & _ & ?)|(_ & _ & ->)]; [discriminate|].
+  destruct (h >? a_maxSeen (adj s)); rewrite nd_upd_ne by exact Hne; reflexivity.
+Qed.
